@@ -28,6 +28,9 @@ class WasmCase(gen.Case):
 
 def _val(draw, ty):
     if ty == FLOAT:
+        if draw(st.integers(0, 11)) == 0:
+            # every f32 value is an argument value: NaN, the infinities, negative zero
+            return draw(st.sampled_from([float("nan"), float("inf"), float("-inf"), -0.0]))
         return draw(st.integers(-64, 64)) / 8.0
     if ty == UINT:
         return draw(st.one_of(st.integers(0, 40), st.sampled_from([0, 1, 65535, 65536, 2147483647, 2147483648, 3000000000,
@@ -94,7 +97,8 @@ def nearmiss_case(draw, n_inputs=3):
     kind = draw(st.sampled_from(["local", "assign-param", "branch", "loop", "call", "mixed-cast", "mod", "le", "ge", "ne",
                                  "and", "or", "void", "float-const", "global", "affix", "two-returns", "unused-param-types",
                                  "return-int-as-float", "return-float-as-int", "huge-constant", "huge-constant-uint",
-                                 "huge-constant-compare", "huge-constant-divide", "ne-float", "le-float", "ge-float", "mod-float"]))
+                                 "huge-constant-compare", "huge-constant-divide", "ne-float", "le-float", "ge-float", "mod-float",
+                                 "cast-int-to-uint", "cast-uint-to-int", "mixed-int-uint", "cast-float-to-int", "cast-int-to-float"]))
     a, b = M.Var("a", INT), M.Var("b", INT)
     x = M.Var("x", FLOAT)
     params = [(INT, "a"), (INT, "b"), (FLOAT, "x")]
@@ -150,6 +154,26 @@ def nearmiss_case(draw, n_inputs=3):
         body = [M.Return(M.Bin(op, x, M.Bin("*", x, x, ty=FLOAT), ty=INT))]
         if kind == "mod-float":
             ret = FLOAT
+    elif kind in ("cast-int-to-uint", "cast-uint-to-int", "mixed-int-uint", "cast-float-to-int", "cast-int-to-float"):
+        # conversions spelled as constructors, or implied by mixing int and uint
+        params = [(INT, "a"), (UINT, "b"), (FLOAT, "x")]
+        u = M.Var("b", UINT)
+        two = M.Lit(2, INT, "2")
+        if kind == "cast-int-to-uint":
+            ret = UINT
+            e = draw(st.sampled_from([M.Construct(UINT, [a]), M.Construct(UINT, [M.Bin("+", a, a, ty=INT)]),
+                                      M.Bin("/", M.Construct(UINT, [a]), u, ty=UINT)]))
+        elif kind == "cast-uint-to-int":
+            e = draw(st.sampled_from([M.Construct(INT, [u]), M.Bin("/", M.Construct(INT, [u]), two, ty=INT),
+                                      M.Bin("<", M.Construct(INT, [u]), a, ty=INT)]))
+        elif kind == "mixed-int-uint":
+            e = M.Bin(draw(st.sampled_from(["+", "/", "<", ">", "*"])), *draw(st.sampled_from([(a, u), (u, a)])), ty=INT)
+        elif kind == "cast-float-to-int":
+            e = M.Construct(INT, [x])
+        else:
+            ret = FLOAT
+            e = M.Construct(FLOAT, [a])
+        body = [M.Return(e)]
     elif kind == "global":
         globs = [(INT, "g")]
         body = [M.Return(M.Bin("+", a, M.Var("g", INT), ty=INT))]
